@@ -8,7 +8,7 @@ from harness.common import bud
 from harness.sessions import SB
 
 PROP = "C20"
-MODULES = ["CassisModel.Properties.C20"]
+MODULES = ["CassisModel.Properties.C20", "CassisModel.Properties.C20Ids"]
 THEOREMS = [
     "Cassis.Comparable.sortFs_perm_invariant",
     "Cassis.Comparable.sortFs_perm",
@@ -18,6 +18,8 @@ THEOREMS = [
     "Cassis.Comparable.renderFrom_perm_invariant",
     "Cassis.Comparable.renderVal_prim_injective",
     "Cassis.Comparable.renderCols_prim_sensitive",
+    "Cassis.Comparable.renderFrom_renumber",
+    "Cassis.Comparable.renderFrom_ids_and_order",
 ]
 ASSUMPTIONS = [
     "proved on the model: under the property's side condition (structures of one type are pairwise ordered by their offsets) the table depends only on the *set* of collected structures and the *set* of indexed structures, not on the order in which the traversal or the index delivered them, nor on the content hash; rows of a type ascend by begin and descend by end; a changed primitive cell changes the row (partial: the other sensitivity clauses and invariance under the round trips are checked per run on implementation and model)",
